@@ -9,6 +9,10 @@ What is read off the source (fail closed: anything outside the whitelisted shape
         exact body: visit_functiondef -> handle_function(node), visit_asyncfunctiondef -> handle_function(node,
         labels={...}) (the label set is extracted), visit_assign -> handle_attribute(node), visit_annassign ->
         handle_attribute(node, safe_get_annotation(...));
+      - visit_expr (expression statements `__all__.extend(...)` / `__all__.append(...)` at module level extend the exports
+        like `__all__ +=`): exact shape (receiver is the bare name, the two method names, the `self.current.is_module` test,
+        first positional argument, `append(x)` = `extend([x])`, AttributeError / IndexError suppressed, generic_visit
+        afterwards); the receiver name and the method names are extracted;
       - handle_attribute: the parent kinds under which a re-assignment is "conditional"
         (`isinstance(node.parent, (ast.If, ast.ExceptHandler))`);
       - visit_if: the parent kinds at which a TYPE_CHECKING test guards (`isinstance(node.parent, (ast.Module,
@@ -85,6 +89,28 @@ def get_names(node):
     "get_instance_names": '''
 def get_instance_names(node):
     return [name.split(".", 1)[1] for name in get_names(node) if name.startswith("self.")]
+''',
+    "visit_expr": '''
+def visit_expr(self, node):
+    with suppress(AttributeError, IndexError):
+        call = node.value
+        all_method = (
+            isinstance(call, ast.Call)
+            and call.func.value.id == "__all__"
+            and call.func.attr in {"extend", "append"}
+            and self.current.is_module
+        )
+        if all_method:
+            argument = call.args[0]
+            if call.func.attr == "append":
+                argument = ast.List(elts=[argument], ctx=ast.Load())
+            self.current.exports.extend(
+                [
+                    name if isinstance(name, str) else ExprName(name.name, parent=name.parent)
+                    for name in safe_get__all__(ast.Expr(value=argument), self.current)
+                ],
+            )
+    self.generic_visit(node)
 ''',
     "visit_functiondef": '''
 def visit_functiondef(self, node):
@@ -189,6 +215,7 @@ def tables() -> dict:
     _same_shape(meths["visit"], "visit", "Visitor.visit")
     _same_shape(meths["generic_visit"], "generic_visit", "Visitor.generic_visit")
     handlers = []
+    all_call = {"receiver": "", "methods": []}      # no visit_expr: no expression statement touches the exports
     for name, fn in meths.items():
         if not name.startswith("visit_"):
             continue
@@ -215,6 +242,22 @@ def tables() -> dict:
         elif name == "visit_annassign":
             _same_shape(fn, "visit_annassign", "Visitor.visit_annassign")
             handlers.append((kind, "HAnnAttribute", []))
+        elif name == "visit_expr":
+            _same_shape(fn, "visit_expr", "Visitor.visit_expr")
+            recv, methods, single = [], [], []
+            for n in ast.walk(fn):
+                if isinstance(n, ast.Compare) and len(n.ops) == 1 and isinstance(n.comparators[0], (ast.Constant, ast.Set)):
+                    left = ast.unparse(n.left)
+                    if left == "call.func.value.id" and isinstance(n.ops[0], ast.Eq):
+                        recv.append(n.comparators[0].value)
+                    elif left == "call.func.attr" and isinstance(n.ops[0], ast.In):
+                        methods.append(sorted(e.value for e in n.comparators[0].elts))
+                    elif left == "call.func.attr" and isinstance(n.ops[0], ast.Eq):
+                        single.append(n.comparators[0].value)
+            if len(recv) != 1 or len(methods) != 1 or len(single) != 1 or single[0] not in methods[0]:
+                raise TranslatorError("Visitor.visit_expr: receiver / method names not found where the shape says they are")
+            all_call = {"receiver": recv[0], "methods": methods[0]}
+            handlers.append((kind, "HExpr", []))
         else:
             raise TranslatorError(f"Visitor.{name}: a visit method the model knows nothing about")
     missing = [k for k in ("module", "classdef", "functiondef", "asyncfunctiondef", "import", "importfrom", "assign", "annassign", "augassign", "if")
@@ -265,7 +308,7 @@ def tables() -> dict:
         if takers.get(fn_) != cls_:
             raise TranslatorError(f"_node_names_map[{cls_}] = {fn_}: not the pairing the model assumes")
     return {"handlers": handlers, "missing": missing, "cond_kinds": cond_kinds, "guard_kinds": guard_kinds, "tests": tests,
-            "init_name": inits[0], "name_map": [(c, builders[f]) for c, f in name_map], "names_kinds": [c for c, _f in names_map]}
+            "init_name": inits[0], "all_call": all_call, "name_map": [(c, builders[f]) for c, f in name_map], "names_kinds": [c for c, _f in names_map]}
 
 
 def translate(ctx=None) -> Path:
@@ -285,6 +328,9 @@ def translate(ctx=None) -> Path:
            "(* visit_if: isinstance(node.parent, ...) and the texts of a type-checking test *)",
            f"Definition guard_parent_kinds : list string := {lst(t['guard_kinds'])}.",
            f"Definition type_checking_tests : list string := {lst(t['tests'])}.",
+           "(* visit_expr: <receiver>.<method>(<argument>, ...) as an expression statement extends the exports of a module *)",
+           f"Definition all_receiver : string := {_coq_str(t['all_call']['receiver'])}.",
+           f"Definition all_methods : list string := {lst(t['all_call']['methods'])}.",
            "(* handle_function: the method whose body is visited for instance attributes *)",
            f"Definition init_method_name : string := {_coq_str(t['init_name'])}.",
            "(* assignments.py: _node_name_map (which target nodes have a name), _node_names_map (which statements have targets) *)",
